@@ -171,7 +171,8 @@ Proof. intros. unfold ok_flv. apply list_eqb_refl. exact tag_eqb_refl. Qed.
 Lemma snap_eqb_refl : forall s, snap_eqb s s = true.
 Proof.
   intros s. unfold snap_eqb. rewrite !Z.eqb_refl. cbn.
-  apply list_eqb_refl. intros []; reflexivity.
+  rewrite (list_eqb_refl Bool.eqb); [|intros []; reflexivity].
+  rewrite (list_eqb_refl Z.eqb); [reflexivity | exact Z.eqb_refl].
 Qed.
 
 Theorem release_model_passes : forall refs kinds es,
@@ -185,21 +186,42 @@ Proof.
   - destruct j; [reflexivity | apply IH; congruence].
 Qed.
 
-(* stopping one client ends that client's connection only, and takes exactly its share of the counters *)
+Lemma nth_set_nth_same : forall {A} i (x d : A) l, (i < length l)%nat -> nth i (set_nth i x l) d = x.
+Proof.
+  intros A i. induction i as [|i IH]; intros x d l Hi; destruct l as [|h t]; cbn in *; try lia; [reflexivity|].
+  apply IH. lia.
+Qed.
+
+(* stopping one client ends that client's connection only, takes exactly its share of the counters,
+   and touches the consumer count of ITS stream only — whatever other streams exist under the path *)
 Theorem release_stop_is_local : forall refs kinds s i,
   nth i (sn_closed s) true = false ->
   let s' := snap_step refs kinds s (TStop i) in
+  let g := nth i (sn_of s) O in
   (forall j, j <> i -> nth j (sn_closed s') true = nth j (sn_closed s) true) /\
   sn_cc s' = sn_cc s - cons_weight refs (nth i kinds 0) /\
+  (forall h, h <> g -> nth h (sn_gens s') 0 = nth h (sn_gens s) 0) /\
+  ((g < length (sn_gens s))%nat -> nth g (sn_gens s') 0 = nth g (sn_gens s) 0 - cons_weight refs (nth i kinds 0)) /\
   sn_rtsp s' + sn_flv s' + sn_wsp s' =
     sn_rtsp s + sn_flv s + sn_wsp s
     - b2z (is_rtsp_kind (nth i kinds 0)) - b2z (is_flv_kind (nth i kinds 0)) - b2z (is_wsp_kind (nth i kinds 0)).
 Proof.
-  intros refs kinds s i Hc. cbn [snap_step]. rewrite Hc. unfold snap_add.
-  cbn [sn_cc sn_rtsp sn_flv sn_wsp sn_closed]. repeat split.
+  intros refs kinds s i Hc s' g. subst s' g. cbn [snap_step]. rewrite Hc. unfold snap_add, add_nth.
+  cbn [sn_cc sn_rtsp sn_flv sn_wsp sn_closed sn_gens].
+  split; [|split; [|split; [|split]]].
   - intros j Hj. apply nth_set_nth_other. congruence.
   - lia.
+  - intros h Hh. apply nth_set_nth_other. congruence.
+  - intros Hg. rewrite nth_set_nth_same by exact Hg. lia.
+  - lia.
 Qed.
+
+(* a new publisher under the path changes nothing for anybody who is attached *)
+Theorem release_replace_touches_nobody : forall refs kinds s,
+  let s' := snap_step refs kinds s TReplace in
+  sn_cc s' = sn_cc s /\ sn_closed s' = sn_closed s /\ sn_rtsp s' = sn_rtsp s /\ sn_flv s' = sn_flv s /\
+  sn_wsp s' = sn_wsp s /\ sn_gens s' = sn_gens s ++ [0].
+Proof. intros. cbn. repeat split. Qed.
 
 Lemma nth_all_true : forall {A} (l : list A) j,
   (j < length l)%nat -> nth j (map (fun _ => true) l) false = true.
@@ -212,8 +234,10 @@ Qed.
 Theorem release_end_is_total : forall refs kinds s,
   let s' := snap_step refs kinds s TEnd in
   sn_cc s' = 0 /\ sn_rtsp s' = 0 /\ sn_flv s' = 0 /\ sn_wsp s' = 0 /\
+  (forall g, nth g (sn_gens s') 0 = 0) /\
   forall j, (j < length (sn_closed s))%nat -> nth j (sn_closed s') false = true.
 Proof.
   intros refs kinds s. cbn. repeat split.
-  intros j Hj. apply nth_all_true. exact Hj.
+  - intros g. generalize (sn_gens s). intros l. revert g. induction l as [|h t IH]; intros g; destruct g; cbn; auto.
+  - intros j Hj. apply nth_all_true. exact Hj.
 Qed.
